@@ -13,7 +13,7 @@ from .c08 import EPS, _ep, _ep_addr
 
 PID = "C17"
 RULE = (
-    "cases = a SimpleService with eventgroup 1 (explicit notifications, 1..4 events) and eventgroup 2 (cyclic, interval "
+    "exhaustive: every script of bounded length over {subscribe / unsubscribe of two endpoints, of one endpoint to the cyclic eventgroup, notify_once, value update} x {one loop iteration later without idle point, +0.6 s}, directly and through the wire; random: cases = a SimpleService with eventgroup 1 (explicit notifications, 1..4 events) and eventgroup 2 (cyclic, interval "
     "0.5 s, 1..2 events) and scripts of client_subscribed / client_unsubscribed for 3 endpoints (IPv4 and IPv6; also "
     "subscriptions naming 0 or 2 endpoints or an unknown eventgroup, repeated subscribes and unsubscribes of endpoints that "
     "are not subscribed; the same scripts also through the wire, as Subscribe / StopSubscribe datagrams to a discovery endpoint on which the service is announced), value updates, notify_once for any subset of events, and waits across cyclic rounds; steps at "
